@@ -2900,6 +2900,7 @@ bn_calc_naf(bn_p bn, size_t wnd_bits, size_t naf_arr_size, int8_t *naf_arr,
 	register bn_digit_t mask;
 	register int8_t itm;
 	register uint8_t sign_bit;
+	bn_digit_t crr;
 
 	if (NULL == bn || 2 > wnd_bits || NULL == naf_arr)
 		return (EINVAL);
@@ -2938,7 +2939,10 @@ bn_calc_naf(bn_p bn, size_t wnd_bits, size_t naf_arr_size, int8_t *naf_arr,
 			}
 #endif
 			if (itm < 0) {
-				bn_add_digit(&tm, (bn_digit_t)-itm, NULL);
+				crr = 0;
+				bn_add_digit(&tm, (bn_digit_t)-itm, &crr);
+				if (0 != crr) /* bn + 2^(wnd_bits - 1) does not fit. */
+					return (EOVERFLOW);
 			} else {
 				bn_sub_digit(&tm, (bn_digit_t)itm, NULL);
 			}
